@@ -103,10 +103,29 @@ pub fn peephole_compile<'a>(
 ) -> Result<Fun, collections::Vec<'a, Diagnostic<VmFileId>>> {
   let (instructions, constants, lines) = chunk_builder.take();
 
+  #[cfg(feature = "verif")]
+  let verif_before = if crate::verif::peephole_log_wanted() {
+    Some((instructions.clone(), lines.clone()))
+  } else {
+    None
+  };
+
   let (mut instructions, lines) = peephole_optimize(instructions, lines);
 
   let label_count = label_count(&instructions);
   apply_stack_effects(&mut fun_builder, &mut instructions);
+
+  #[cfg(feature = "verif")]
+  if let Some((before, before_lines)) = verif_before {
+    crate::verif::peephole_log_push(crate::verif::PeepholeRecord {
+      name: fun_builder.name().to_string(),
+      before,
+      before_lines,
+      after: instructions.clone(),
+      after_lines: lines.clone(),
+      max_slots: fun_builder.verif_max_slots(),
+    });
+  }
 
   let mut label_offsets: collections::Vec<usize> = bumpalo::vec![in alloc; 0; label_count];
 
@@ -311,6 +330,36 @@ fn remove_dead_code(instructions: &mut VecCursor<SymbolicByteCode>, lines: &mut 
     instructions.inc_reader(1);
     lines.inc_reader(1);
   }
+}
+
+/// Run the optimiser over a window on behalf of the verification harness
+#[cfg(feature = "verif")]
+pub fn verif_peephole_optimize(
+  instructions: Vec<SymbolicByteCode>,
+  lines: Vec<u16>,
+) -> (Vec<SymbolicByteCode>, Vec<u16>) {
+  peephole_optimize(instructions, lines)
+}
+
+/// Run the stack effect pass on behalf of the verification harness
+#[cfg(feature = "verif")]
+pub fn verif_apply_stack_effects(
+  mut instructions: Vec<SymbolicByteCode>,
+) -> (Vec<SymbolicByteCode>, i32) {
+  use laythe_core::{
+    hooks::{GcHooks, NoContext},
+    module::Module,
+    object::Class,
+    signature::Arity,
+  };
+  let context = NoContext::default();
+  let hooks = GcHooks::new(&context);
+  let name = hooks.manage_str("verif");
+  let class = hooks.manage_obj(Class::bare(name));
+  let module = hooks.manage(Module::new(&hooks, class, "verif", 0));
+  let mut builder = FunBuilder::new(name, module, Arity::default());
+  apply_stack_effects(&mut builder, &mut instructions);
+  (instructions, builder.verif_max_slots())
 }
 
 fn label_count(instructions: &[SymbolicByteCode]) -> usize {
